@@ -65,6 +65,12 @@ func c15Defines() []c15Def {
 				return ok1 && c.Cur().V < p1.V || ok2 && c.Cur().V > p2.V
 			},
 		}},
+		// aggregates qualified by the very variable being defined: the row under test counts
+		{"own-agg", map[string]string{"A": "SUM(A.v) <= 4", "B": "COUNT(B.*) <= 2 AND v >= 2", "C": "v >= 1"}, ref.Define{
+			"A": func(c ref.DefCtx) bool { return c.SumOf("A") <= 4 },
+			"B": func(c ref.DefCtx) bool { return c.CountOf("B") <= 2 && c.Cur().V >= 2 },
+			"C": func(c ref.DefCtx) bool { return c.Cur().V >= 1 },
+		}},
 		{"twice-agg", map[string]string{"A": "v >= 1", "B": "v >= FIRST(A.v) AND id - FIRST(A.id) >= 2", "C": "COUNT(A.*) < 3 AND COUNT(B.*) < 2"}, ref.Define{
 			"A": func(c ref.DefCtx) bool { return c.Cur().V >= 1 },
 			"B": func(c ref.DefCtx) bool { f, ok := c.FirstOf("A"); return ok && c.Cur().V >= f.V && c.Cur().ID-f.ID >= 2 },
